@@ -1,6 +1,7 @@
 """Sidecar contracts for the built-in field types of cutplace/fields.py (C02)."""
 import itertools, re as _re, z3
 from .common import *
+from vf import findings
 from vf.unit import ProofUnit, NativeUnit, Oracle, sweep
 from vf.model import *
 
@@ -239,7 +240,7 @@ def unit_length_range_sweep():
         def int_cases():
             df = ["delimited", "fixed"]
             for fmt in df:
-                for length, rule in (("", ""), ("", "-5...5"), ("", "10..."), ("3", ""), ("1...3", ""), ("3", "-99...999"), ("2", "10...99")):
+                for length, rule in (("", ""), ("", "-5...5"), ("", "10..."), ("3", ""), ("1...3", ""), ("2...3", ""), ("2", ""), ("3", "-99...999"), ("2", "10...99")):
                     if fmt == "fixed" and ("..." in length or length == ""): continue
                     yield (fmt, length, rule)
         def int_check(c):
@@ -264,10 +265,24 @@ def unit_length_range_sweep():
             for bad in ("x", "1.0", "1e3", "0x10", " ", "--1", "1_0" if False else "1 0"):
                 try: fld.validated(bad); return {"expected": "%r rejected" % bad, "observed": "accepted"}
                 except errors.FieldValueError: pass
+            # "with only a length given, any integer whose text fits that length": integers written with leading zeros (recorded finding K-17 for lengths with a lower limit of 2 or more)
+            if length and not rule and fmt != "fixed":
+                for text, n in (("05", 5), ("00", 0), ("007", 7), ("-07", -7), ("010", 10)):
+                    fits = any((lo is None or lo <= len(text)) and (hi is None or len(text) <= hi) for lo, hi in _len_items(length))
+                    try: got = fld.validated(text); obs = True
+                    except errors.FieldValueError: obs = False
+                    if obs == fits and (not obs or got == n): continue
+                    if known17 and fits and not obs and any(lo is not None and lo >= 2 for lo, hi in _len_items(length)): k17.append((length, text)); continue
+                    return {"expected": "%r %s" % (text, "accepted as %d" % n if fits else "rejected"), "observed": "accepted %r" % (got,) if obs else "rejected"}
             return None
+        known17 = findings.is_known("K-17", "C02"); k17 = []
         r2 = sweep("C02/bounded/Integer fields: rule, length-derived and default ranges", int_cases(), int_check, "bounded", "delimited and fixed formats x 7 (length, rule) declarations x 21 boundary integers + 6 non-integers",
                    describe=lambda c: {"format": c[0], "length": c[1], "rule": c[2]}, function="fields.IntegerFieldFormat", unit="C02.sweep", props=["C02"])
-        return [r1, r2]
+        out_ = [r1, r2]
+        if k17:
+            out_.append(Result("C02/K-17 witness: a length-only Integer field with a lower length of 2 or more rejects integers written with leading zeros (%s)" % ", ".join("%s under length %s" % (t, l) for l, t in k17[:4]), "bounded", FAILED, "native",
+                               finding="K-17", cases=len(k17), props=["C02"], detail=repr(k17[:6]), replay={"verdict": "confirmed", "input": {"length": k17[0][0], "cell": k17[0][1]}, "expected": "accepted (an integer whose text fits the length)", "observed": "rejected"}))
+        return out_
     return NativeUnit("C02.sweep", "bounded stand-in for create_range_from_length (string-built range text) and Integer range selection", ["C02"], run, kind="bounded")
 
 
